@@ -489,7 +489,9 @@ func (configgen *ConfigGeneratorImpl) buildGatewayHTTPRouteConfig(node *model.Pr
 
 			infPoolConfigs := istio_route.CheckAndGetInferencePoolConfigs(*virtualService)
 
-			vskey := virtualService.Name + "/" + virtualService.Namespace
+			// The translation depends on the server as well (IsTLS: default scheme of a redirect, port elision):
+			// servers of one gateway that share this route may differ in having TLS settings.
+			vskey := virtualService.Name + "/" + virtualService.Namespace + "/" + strconv.FormatBool(server.Tls != nil)
 
 			if routes, exists = gatewayRoutes[gatewayName][vskey]; !exists {
 				hashByDestination := istio_route.GetConsistentHashForVirtualService(push, node, *virtualService)
